@@ -71,7 +71,9 @@ static void write_inputs() {
     std::ofstream f("top.xml");
     f << "<topology>\n <molecules>\n  <molecule name=\"M\" nmols=\"" << NM << "\" nbeads=\"2\">\n"
       << "   <bead name=\"A\" type=\"A\" mass=\"1.0\" q=\"0.0\" />\n   <bead name=\"B\" type=\"B\" mass=\"2.0\" q=\"0.0\" />\n"
-      << "  </molecule>\n </molecules>\n</topology>\n";
+      << "  </molecule>\n </molecules>\n"
+      // a bond inside every molecule: the worker topologies must carry it (and the exclusion it implies) like the master's
+      << " <bonded>\n  <bond>\n   <name>bond</name>\n   <beads>\n    M:A M:B\n   </beads>\n  </bond>\n </bonded>\n</topology>\n";
   }
   {
     std::ofstream f("opt.xml");
@@ -80,6 +82,9 @@ static void write_inputs() {
       for (std::string t : {"A", "B"})
         f << " <non-bonded>\n  <name>" << t << "-" << t << "</name>\n  <type1>" << t << "</type1>\n  <type2>" << t
           << "</type2>\n  <min>0.0</min>\n  <max>1.2</max>\n  <step>0.1</step>\n </non-bonded>\n";
+      // A-B pairs: the intramolecular pair (0.11 .. 0.16 nm; dump coordinates are in Angstrom) is excluded through the bond; and the bond distribution itself
+      f << " <non-bonded>\n  <name>A-B</name>\n  <type1>A</type1>\n  <type2>B</type2>\n  <min>0.0</min>\n  <max>1.2</max>\n  <step>0.1</step>\n </non-bonded>\n";
+      f << " <bonded>\n  <name>bond</name>\n  <min>0.10</min>\n  <max>0.17</max>\n  <step>0.01</step>\n </bonded>\n";
       f << "</cg>\n";
     }
   }
